@@ -325,15 +325,16 @@ where
 {
     #[cfg_attr(feature = "tracing", instrument(skip_all, level = "trace"))]
     fn drop(&mut self) {
-        // An error which a request stream has raised, and which this connection has not been
-        // polled for since, closes the connection with its own code
-        if self.inner.check_connection_error().is_err() {
-            return;
-        }
-        self.inner.close_connection(
-            Code::H3_NO_ERROR,
-            "Connection was closed by the server".to_string(),
-        );
+        // Dropping the connection closes it with H3_NO_ERROR, unless a request stream has raised
+        // an error before, which closes the connection with its own code. The close takes part
+        // in the election of the connection's one outcome, like the drop of the last
+        // `SendRequest` of a client: a stream which meets an error later reports this outcome.
+        let _ = self
+            .inner
+            .handle_connection_error(InternalConnectionError::new(
+                Code::H3_NO_ERROR,
+                "Connection was closed by the server".to_string(),
+            ));
     }
 }
 
